@@ -42,6 +42,7 @@ type Op struct {
 	T  int    `json:"t,omitempty"`
 	U  int    `json:"u,omitempty"`
 	Ok bool   `json:"ok,omitempty"`
+	Rf string `json:"rf,omitempty"` // refresh: what the registry answers: ok | err | size (blob of another size) | content (same size, other bytes)
 }
 
 type Case struct {
@@ -51,9 +52,12 @@ type Case struct {
 }
 
 const nnames = 3
+const probeChunk = 512 // blob chunk size of the remote blob; a probe reads 4 bytes of a chunk nobody has read yet
+const probeFirst = 8   // chunks below hold a.txt
 
 var (
 	blobData   []byte
+	variants   [3][]byte // 0 = the blob, 1 = other size, 2 = same size and other content
 	blobDigest digest.Digest
 	fileData   = []byte("hello from the layer: 0123456789abcdefghijklmnopqrstuvwxyz")
 	tm         = task.NewBackgroundTaskManager(2, time.Millisecond)
@@ -65,11 +69,17 @@ func buildBlob() {
 	tw.WriteHeader(&tar.Header{Typeflag: tar.TypeDir, Name: "d/", Mode: 0755})
 	tw.WriteHeader(&tar.Header{Typeflag: tar.TypeReg, Name: "a.txt", Mode: 0644, Size: int64(len(fileData))})
 	tw.Write(fileData)
+	pad := make([]byte, 96*1024) // never read through the file system: probes read it chunk by chunk from the registry
+	for i := range pad {
+		pad[i] = byte(i*7 + i/251)
+	}
+	tw.WriteHeader(&tar.Header{Typeflag: tar.TypeReg, Name: "pad.bin", Mode: 0644, Size: int64(len(pad))})
+	tw.Write(pad)
 	tw.WriteHeader(&tar.Header{Typeflag: tar.TypeReg, Name: "d/b.txt", Mode: 0644, Size: 3})
 	tw.Write([]byte("abc"))
 	tw.Close()
 	t := buf.Bytes()
-	b, err := estargz.Build(io.NewSectionReader(bytes.NewReader(t), 0, int64(len(t))), estargz.WithChunkSize(16))
+	b, err := estargz.Build(io.NewSectionReader(bytes.NewReader(t), 0, int64(len(t))), estargz.WithChunkSize(8192), estargz.WithCompressionLevel(0))
 	if err != nil {
 		panic(err)
 	}
@@ -79,6 +89,13 @@ func buildBlob() {
 	}
 	b.Close()
 	blobDigest = digest.FromBytes(blobData)
+	// what a wrong registry serves under the same reference: other bytes, of the same size or longer
+	variants[0] = blobData
+	variants[2] = make([]byte, len(blobData))
+	for i, c := range blobData {
+		variants[2][i] = c ^ 0x5a
+	}
+	variants[1] = append(append([]byte{}, variants[2]...), bytes.Repeat([]byte{0xee}, 777)...)
 }
 
 func goid() uint64 {
@@ -121,6 +138,9 @@ type machine struct {
 	handles  []*handle
 	byGoid   sync.Map
 	syncOK   bool
+	syncSrc  int         // variant served to a Refresh made by the harness itself
+	probeK   map[int]int // per name: next never-read chunk of the blob
+	tainted  map[int]bool
 	stress   bool
 	calls    uint64
 	mu       sync.Mutex
@@ -150,13 +170,17 @@ func (t *trackedReader) Close() error {
 	return t.Reader.Close()
 }
 
-type fetcher struct{ m *machine }
+type fetcher struct {
+	m   *machine
+	src int // which variant this fetcher serves
+}
 
 func (f *fetcher) Fetch(ctx context.Context, off int64, size int64) (io.ReadCloser, error) {
-	if off < 0 || off+size > int64(len(blobData)) {
+	b := variants[f.src]
+	if off < 0 || off+size > int64(len(b)) {
 		return nil, fmt.Errorf("out of range")
 	}
-	return io.NopCloser(bytes.NewReader(blobData[off : off+size])), nil
+	return io.NopCloser(bytes.NewReader(b[off : off+size])), nil
 }
 func (f *fetcher) Check() error {
 	if !f.m.external(1) {
@@ -172,7 +196,11 @@ func (h *handler) Handle(ctx context.Context, desc ocispec.Descriptor) (remote.F
 	if !h.m.external(3) {
 		return nil, 0, fmt.Errorf("registry failure")
 	}
-	return &fetcher{h.m}, int64(len(blobData)), nil
+	src := 0
+	if _, isThread := h.m.byGoid.Load(goid()); !isThread && !h.m.stress {
+		src = h.m.syncSrc // a Refresh made by the harness itself
+	}
+	return &fetcher{h.m, src}, int64(len(variants[src])), nil
 }
 
 // external is called from inside an external call: a Resolve goroutine is suspended here until the harness
@@ -215,7 +243,7 @@ func newMachine() *machine {
 	if err != nil {
 		panic(err)
 	}
-	m := &machine{root: root, objIDs: map[any]int{}, cur: map[int]any{}, dirty: map[int]bool{}, syncOK: true, stats: map[string]int{}}
+	m := &machine{root: root, objIDs: map[any]int{}, cur: map[int]any{}, dirty: map[int]bool{}, probeK: map[int]int{}, tainted: map[int]bool{}, syncOK: true, stats: map[string]int{}}
 	store := func(sr *io.SectionReader, opts ...metadata.Option) (metadata.Reader, error) {
 		if !m.external(4) {
 			return nil, fmt.Errorf("metadata failure")
@@ -231,6 +259,7 @@ func newMachine() *machine {
 	}
 	cfg := config.Config{}
 	cfg.BlobConfig.CheckAlways = true
+	cfg.BlobConfig.ChunkSize = probeChunk
 	cfg.DirectoryCacheConfig.SyncAdd = true
 	cfg.ResolveResultEntryTTLSec = 3600
 	res, err := layer.NewResolver(root, tm, cfg, map[string]remote.Handler{"mem": &handler{m}}, store, layer.OverlayOpaqueAll, nil)
@@ -315,6 +344,9 @@ func (m *machine) await(t *thread, expectBlock bool) string {
 			return "EErr"
 		}
 		t.l.SkipVerify()
+		if data, err := layer.VerifReadFileC12(t.l, "a.txt", len(fileData)+8); err != nil || !bytes.Equal(data, fileData) {
+			m.problem("the layer returned by Resolve does not serve its file: %v", err)
+		}
 		obj := layer.VerifLayerObjectC12(t.l)
 		id, seen := m.objIDs[obj]
 		if !seen {
@@ -448,8 +480,9 @@ func (m *machine) apply(o Op) {
 			fileErr = fmt.Errorf("wrong contents")
 		}
 		p := make([]byte, 4)
-		_, blobErr := h.l.ReadAt(p, 0)
-		if blobErr == nil && !bytes.Equal(p, blobData[:4]) {
+		tail := int64(len(blobData) - 4) // the footer: fetched by every Resolve, so served from the blob cache
+		_, blobErr := h.l.ReadAt(p, tail)
+		if blobErr == nil && !bytes.Equal(p, blobData[tail:]) {
 			blobErr = fmt.Errorf("wrong blob bytes")
 		}
 		checkErr := h.l.Check()
@@ -470,18 +503,55 @@ func (m *machine) apply(o Op) {
 			return
 		}
 		h := m.handles[o.U]
-		m.syncOK = o.Ok
+		rf := o.Rf
+		if rf == "" {
+			rf = map[bool]string{true: "ok", false: "err"}[o.Ok]
+		}
+		m.syncOK = rf != "err"
+		m.syncSrc = map[string]int{"ok": 0, "err": 0, "size": 1, "content": 2}[rf]
 		err := h.l.Refresh(context.Background(), failingHosts, refOf(h.name), descOf())
-		m.syncOK = true
+		m.syncOK, m.syncSrc = true, 0
 		ev := "ENone"
 		if err != nil {
 			ev = "EErr"
 		}
-		if !h.released && o.Ok && err != nil {
+		if !h.released && rf == "ok" && err != nil {
 			m.problem("Refresh of a held layer failed although the registry answered: %v", err)
 		}
-		m.record(fmt.Sprintf("Refresh %d %s", o.U, hx.CoqBool(o.Ok)), ev)
+		if (rf == "err" || rf == "size") && err == nil {
+			m.problem("Refresh succeeded although the registry %s", map[string]string{"err": "could not be resolved", "size": "offered a blob of another size"}[rf])
+		}
+		if rf == "content" && err == nil {
+			m.tainted[h.name] = true // a registry serving other bytes under the blob's size was accepted (sizes only are compared)
+		}
+		m.record(fmt.Sprintf("Refresh %d %s", o.U, map[string]string{"ok": "RfOk", "err": "RfErr", "size": "RfSize", "content": "RfContent"}[rf]), ev)
 		m.stats["op.refresh"]++
+		m.stats["op.refresh."+rf]++
+	case "probe":
+		if o.U < 0 || o.U >= len(m.handles) {
+			return
+		}
+		h := m.handles[o.U]
+		k := probeFirst + m.probeK[h.name]
+		off := int64(k * probeChunk)
+		if off+4 > int64(len(blobData))-16*1024 {
+			return // out of never-read chunks (the generator stays far below)
+		}
+		m.probeK[h.name]++
+		p := make([]byte, 4)
+		_, err := h.l.ReadAt(p, off)
+		ok := err == nil && bytes.Equal(p, blobData[off:off+4])
+		if !h.released {
+			m.stats["op.probe.held"]++
+			if !ok && !m.tainted[h.name] {
+				m.problem("held layer (handle %d, name %d): a read that has to go to the registry failed or returned other bytes than the blob's (err=%v)", o.U, h.name, err)
+			}
+		}
+		if !ok {
+			m.stats["result.probe.fail"]++
+		}
+		m.record(fmt.Sprintf("Probe %d", o.U), fmt.Sprintf("EProbe %s", hx.CoqBool(ok)))
+		m.stats["op.probe"]++
 	}
 }
 
@@ -542,6 +612,8 @@ func (m *machine) quiesce() {
 	}
 	u := len(m.handles) - 1
 	m.apply(Op{Op: "use", U: u})
+	m.apply(Op{Op: "refresh", U: u, Rf: "size"})
+	m.apply(Op{Op: "probe", U: u})
 	m.apply(Op{Op: "close", U: u})
 	m.apply(Op{Op: "expb", N: 0})
 	if v := m.view(); v != [3]int{0, 0, 0} {
@@ -663,7 +735,7 @@ func gen(r *hx.Rng) Case {
 			return r.Intn(len(m.handles)), true
 		}
 		o = Op{Op: "start", N: name()}
-		switch r.Pick(22, 38, 10, 7, 7, 5, 8, 3) {
+		switch r.Pick(22, 38, 10, 7, 7, 5, 7, 6, 7) {
 		case 1:
 			if len(pausedT) > 0 {
 				o = Op{Op: "step", T: pausedT[r.Intn(len(pausedT))], Ok: r.Chance(4, 5)}
@@ -686,7 +758,11 @@ func gen(r *hx.Rng) Case {
 			}
 		case 7:
 			if u, ok := anyHandle(); ok {
-				o = Op{Op: "refresh", U: u, Ok: r.Bool()}
+				o = Op{Op: "refresh", U: u, Rf: []string{"ok", "err", "size", "content"}[r.Pick(3, 3, 4, 1)]}
+			}
+		case 8:
+			if u, ok := anyHandle(); ok {
+				o = Op{Op: "probe", U: u}
 			}
 		}
 		if o.Op == "start" && m.waiter(o.N) != nil {
@@ -735,6 +811,15 @@ func main() {
 		// two names interleaved; layer expired but blob still cached: new layer shares the blob
 		{Ops: []Op{S(0), S(1), T(0, true), T(1, true), T(1, true), T(0, true), {Op: "expl", N: 0}, S(0), T(2, true), T(2, true), {Op: "done", U: 1}, {Op: "use", U: 2}, {Op: "close", U: 2}, {Op: "done", U: 0}, {Op: "done", U: 0}, {Op: "close", U: 0}}},
 	}
+	R := func(u int, rf string) Op { return Op{Op: "refresh", U: u, Rf: rf} }
+	P := func(u int) Op { return Op{Op: "probe", U: u} }
+	corpus = append(corpus,
+		// connectivity refreshes on a held layer: refused ones (resolution error, other size) change nothing, reads of cached and of
+		// never-read chunks keep working; an accepted one installs the new fetcher
+		Case{Ops: []Op{S(0), T(0, true), T(0, true), P(0), R(0, "size"), P(0), {Op: "use", U: 0}, R(0, "err"), P(0), R(0, "ok"), P(0), R(0, "size"), P(0), P(0), {Op: "use", U: 0}}},
+		// a second holder shares layer and blob: a refresh refused for one holder must not break the other's reads; other-content registry accepted, then repaired
+		Case{Ops: []Op{S(1), T(0, true), T(0, true), S(1), T(1, true), R(0, "size"), P(1), {Op: "done", U: 0}, R(1, "size"), P(1), R(1, "content"), P(1), {Op: "use", U: 1}, R(1, "ok"), P(1)}},
+	)
 	for _, c := range corpus {
 		emit(c)
 	}
